@@ -5,7 +5,7 @@ import os, sys, json, re, subprocess, glob
 ROOT = os.path.dirname(os.path.dirname(os.path.abspath(__file__)))
 sys.path.insert(0, os.path.join(ROOT, 'lib'))
 import registry
-KANI_UNIT_FILE = {'U18a': 'canonicalize.rs', 'U20a': 'braille.rs', 'U07b': 'speech.rs', 'U13a': 'tts.rs', 'U03a': 'canonicalize.rs', 'U17a': 'interface.rs', 'U08a': 'navigate.rs'}
+KANI_UNIT_FILE = {'U18a': 'canonicalize.rs', 'U20a': 'braille.rs', 'U07b': 'speech.rs', 'U13a': 'tts.rs', 'U03a': 'canonicalize.rs', 'U17a': 'interface.rs entities.in', 'U08a': 'navigate.rs'}
 only = [a for a in sys.argv[1:] if not a.startswith('--')]
 RESUME = '--resume' in sys.argv
 import vunit, kunit
@@ -16,7 +16,7 @@ def files_of(prop):
             if sec.kind in ('fn', 'item'):
                 fs.add(sec.arg.split('::')[0].strip())
     for k in registry.PROPS[prop].get('kani', []):
-        fs.add(KANI_UNIT_FILE.get(k, ''))
+        fs.update(KANI_UNIT_FILE.get(k, '').split())
     for b in registry.PROPS[prop].get('bounded', []):
         fs.add({'B17a': 'interface.rs', 'B13b': 'tts.rs'}.get(b, ''))
     return fs
@@ -45,7 +45,7 @@ for d in sorted(glob.glob(os.path.join(ROOT, 'seeded', '*'))):
             if not (PROP_FILES[prop] & files) and prop != sid.split('_')[0]:
                 continue
             env = dict(os.environ)
-            if not ({KANI_UNIT_FILE.get(k, '') for k in registry.PROPS[prop].get('kani', []) if not (k == 'U03a')} & files):
+            if not ({f for k in registry.PROPS[prop].get('kani', []) if not (k == 'U03a') for f in KANI_UNIT_FILE.get(k, '').split()} & files):
                 env['VERIF_SKIP_KANI'] = '1'
             p = subprocess.run([os.path.join(ROOT, 'check'), prop, '--tier', 'quick'], capture_output=True, text=True, env=env, cwd=ROOT)
             failed = re.findall(r'^failed obligation: (\S+)', p.stdout, re.M)
